@@ -40,7 +40,7 @@ func (impl Implementation) Dlaexc(wantq bool, n int, t []float64, ldt int, q []f
 		panic(nLT0)
 	case ldt < max(1, n):
 		panic(badLdT)
-	case wantq && ldt < max(1, n):
+	case wantq && ldq < max(1, n):
 		panic(badLdQ)
 	case j1 < 0 || n <= j1:
 		panic(badJ1)
